@@ -311,7 +311,7 @@ pub fn run(ctx: &Ctx) -> Report {
     let (st, mut failure) = run_items(ctx, "init", items, check);
     stats.merge(st);
     if failure.is_none() {
-        let (st, f) = run_proptest(ctx, "init", 81, ctx.n(40_000, 1_000_000), strategy, |c: &HCase, st| check(c, st));
+        let (st, f) = run_proptest(ctx, "init", 81, ctx.n(40_000, 40_000_000), strategy, |c: &HCase, st| check(c, st));
         stats.merge(st);
         failure = f;
     }
